@@ -239,12 +239,13 @@ prop(
 
 prop(
     "C11",
-    ["LolHtml.Thm.C11", "LolHtml.Thm.C11_General", "LolHtml.Thm.C11_General_End", "LolHtml.Thm.Full", "LolHtml.Thm.Full16"],
+    ["LolHtml.Thm.C11", "LolHtml.Thm.C11_General", "LolHtml.Thm.C11_General_End", "LolHtml.Thm.Full", "LolHtml.Thm.Full16", "LolHtml.Thm.Full17", "LolHtml.Thm.Full24", "LolHtml.Thm.Full26", "LolHtml.Thm.Full27"],
     [{"lane": "fault", "n_quick": 4000, "n_thorough": 100000},
      {"lane": "full", "n_quick": 2000, "n_thorough": 40000},
      {"lane": "proto", "n_quick": 5000, "n_thorough": 100000, "impl_only": True}],
     LEX_RULE + "; lane fault = lane lex plus a handler failure injected at token index 1..8, graceful flags, memory limit and preallocation sweeps (model vs real TransformStream); lane proto (implementation only): public HtmlRewriter in all 36 encodings with end / bail-out content, token mutations with empty strings, a failure injected at handler invocation index 1..11 or by memory limit, graceful flags on/off, preallocation sizes, cuts anywhere: byte preservation and bail-out handler count",
-    ["the exact sink CONTENT (written.take j ++ handler output ++ written.drop j) is proved for observing controllers (handlers that inspect and may FAIL at any invocation but do not mutate); for arbitrary controllers (rewriting, removing, failing) C11_bailout_general proves the shape: log at failure ++ bail-out handler output ++ the unemitted rest of the input from remaining_content_start, unmodified; the end() variant is C11_bailout_general_end (an end-handler failure is not guarded by should_bail_out_for: no bail-out handler runs, as coded); for the REAL controller model C11_bailout_general_real (Thm/Full16) gives the exact sink log at a failing write whose error is not the handler error (e.g. the memory limit), through Full_real_eq_clean_of_no_handler (real and cleaned write* runs coincide when no write returns the handler error)",
+    ["REAL controller, unconditional (Thm/Full17, Full26, Full27): Full_real_eq_clean — for every configuration, settings record and chunking the complete run write* ; end of the whole model with the real controller EQUALS the run with the cleaned controller, states and results, failures included (the earlier internal-class alternative is removed: RelQ.parse_eq_of_agree, two sinks that agree on every invariant state parse identically for both directives); hence C11_bailout_general_real_all and C11_bailout_general_end_real_all: the bail-out shape for the real controller for EVERY error (handler errors included), with no hypothesis about the run; C14_ranges_real (Thm/Full24, audited here because Thm/C14_Locations and package full define the same auxiliary name) carries the range theorem to the real controller through a logging ghost",
+     "the exact sink CONTENT (written.take j ++ handler output ++ written.drop j) is proved for observing controllers (handlers that inspect and may FAIL at any invocation but do not mutate); for arbitrary controllers (rewriting, removing, failing) C11_bailout_general proves the shape: log at failure ++ bail-out handler output ++ the unemitted rest of the input from remaining_content_start, unmodified; the end() variant is C11_bailout_general_end (an end-handler failure is not guarded by should_bail_out_for: no bail-out handler runs, as coded); for the REAL controller model C11_bailout_general_real (Thm/Full16) gives the exact sink log at a failing write whose error is not the handler error (e.g. the memory limit), through Full_real_eq_clean_of_no_handler (real and cleaned write* runs coincide when no write returns the handler error)",
      "an end-handler failure happens after every received byte was emitted; the bail-out handlers are not run then (as coded and as the repository's own test expects)",
      MODEL_SCOPE],
     level_text=("Lean 4 theorem C11_bailout_write: for every table, flag schedule, chunking, memory limit and preallocation, "
@@ -353,7 +354,7 @@ prop(
 
 prop(
     "C15",
-    ["LolHtml.Thm.C15_Core", "LolHtml.Thm.C15_Full", "LolHtml.Thm.C15_Linear", "LolHtml.Thm.Full", "LolHtml.Thm.Full3", "LolHtml.Thm.Full4", "LolHtml.Thm.Full5", "LolHtml.Thm.FullIds", "LolHtml.Thm.FullPay", "LolHtml.Thm.C15_Args", "LolHtml.Thm.Full6", "LolHtml.Thm.Full7", "LolHtml.Thm.Full8", "LolHtml.Thm.Full9", "LolHtml.Thm.Full10", "LolHtml.Thm.Full11", "LolHtml.Thm.Full12", "LolHtml.Thm.FullGuardW", "LolHtml.Thm.FullGuardX", "LolHtml.Thm.Full13", "LolHtml.Thm.Full14", "LolHtml.Thm.Full15", "LolHtml.Thm.Full16"],
+    ["LolHtml.Thm.C15_Core", "LolHtml.Thm.C15_Full", "LolHtml.Thm.C15_Linear", "LolHtml.Thm.Full", "LolHtml.Thm.Full3", "LolHtml.Thm.Full4", "LolHtml.Thm.Full5", "LolHtml.Thm.FullIds", "LolHtml.Thm.FullPay", "LolHtml.Thm.C15_Args", "LolHtml.Thm.Full6", "LolHtml.Thm.Full7", "LolHtml.Thm.Full8", "LolHtml.Thm.Full9", "LolHtml.Thm.Full10", "LolHtml.Thm.Full11", "LolHtml.Thm.Full12", "LolHtml.Thm.FullGuardW", "LolHtml.Thm.FullGuardX", "LolHtml.Thm.Full13", "LolHtml.Thm.Full14", "LolHtml.Thm.Full15", "LolHtml.Thm.Full16", "LolHtml.Thm.Full17", "LolHtml.Thm.Full23", "LolHtml.Thm.Full25", "LolHtml.Thm.Full26"],
     [{"lane": "lex", "n_quick": 4000, "n_thorough": 200000},
      {"lane": "fault", "n_quick": 3000, "n_thorough": 60000},
      {"lane": "full", "n_quick": 2000, "n_thorough": 40000},
@@ -362,6 +363,7 @@ prop(
     ["covers the parser / dispatcher / transform-stream core; panics in selectors/cssparser/encoding_rs/std and in the packages' own scopes (selector VM: C04_vm_never_panics; handlers: C05_no_panic; memory: C10_error_not_panic; nth: C04_nth_total) are those packages' theorems",
      "the two former open sites (U2: 'Tag should be a start tag at this point', RequestLexeme callback assertion) are closed by C15_no_panic_full at the cost of one more decidable table side-condition RelexSide (HeadOk, RelexOk, TextTypeOk, PhaseOk: the token-kind agreement between scanner and re-lexing lexer is a property of the table), decided on the regenerated table on every run",
      "CtlClean quantifies over all controller states; the real controller model (Model/Full) satisfies it only on states reachable in runs (Full_not_ctlClean: the aux-info continuation without a pending request is rewrite_controller.rs's 'vm req without vm' branch) — no callback-closed state invariant can repair this (Full_ctlClean_unattainable: a call ORDER the dispatcher never produces reaches the stale-locator debug_assert in HandlerVec::inc_user_count; Full_no_state_invariant_suffices), so C15_no_panic_full does not instantiate at the real controller as stated. Proved instead (Thm/Full3, Full_no_panic_protocol): along every protocol-conforming event sequence from the initial state of ANY configuration the controller ends fault-free in the joint invariant (typing, scope Inv, selector-VM SemInv), stops with a content-handler error, or stops at one of three residual glue sites (attribute raw slice out of range, token range before the slice base, end-tag payload missing); every VM panic, dispatcher locator / match-id / refcount panic, stack desynchronisation and 'vm req without vm' is excluded. Round 3 (Thm/Full4): every lexer-mode dispatcher operation (handle_tag, handle_non_tag_content, handle_end) from an idle dispatcher state is protocol-conforming and ends idle again or fails with a content-handler error / one of three named glue sites / a dispatcher slice check (Full_handleTag_lexer, Full_handleNonTag_lexer, Full_handleEnd_lexer; the `token range before slice base` site is eliminated); with the CLEANED controller (panic-class callback errors mapped to handler errors) the whole model never panics (Full_clean_no_panic), and the real run equals the cleaned run call by call up to the first panic-class callback error (Full_writes_agree_or_panic): parser, dispatcher and stream add no panic site of their own. Round 4 (Thm/Full5): Full_no_panic_lexer_allowed — for EVERY configuration with a document-level text / comment / doctype handler (the parser never enters scanner mode), settings, input and chunking, every call of the whole rewriter model with the REAL controller returns ok, a handler / memory / ambiguity error, the documented use-after-error panic, or a panic at one of TWO named glue sites (rAttr: attribute raw range outside the tag's raw range; rMatcher: attribute name/value slice out of range) — parser, stream, dispatcher (incl. its own slice checks), selector VM, handler vectors and the other glue sites are excluded; Round 5 (Thm/C15_Args, Thm/Full6): the two lexeme facts are THEOREMS for arbitrary sinks — C15_parse_args_valid: for every table passing WfTable, the token-part certificate, the NEW attribute-raw-range certificate checkRaw (a flow-sensitive analysis: an attribute started but not yet named has raw range 0..0 and must never be pushed; a table dropping finish_attr_name from one arm passes the old certificates and fails this one, witness self_closing_start_tag_state) and EmitsChecked, every sink, input and chunking, every tag lexeme handed to handle_tag has its attribute name / value / raw ranges inside the lexeme and the input, up to the first error — hence Full_rAttr, Full_rMatcher and Full_no_panic_lexer: in lexer-mode configurations NO call of the whole rewriter model with the REAL controller (any selectors, mutating / removing / failing scripts, any settings, input and chunking) returns a panic- or internal-class error. Scanner mode for the real controller: Thm/Full7 reduces Full_no_panic_statement to two named hypotheses (Full_no_panic_partial'): an operation-level one (the two hint operations and handle_tag from the three post-hint dispatcher states behave like the cleaned controller's on valid lexemes) and a run-level one (the relex agreement C06_relex_same_tag / _end_tag restated relative to a sink-state invariant: the kind guard never fires); the argument guard never fires for the real controller in ANY configuration, scanner mode included (Full_args_guardFree, no hypothesis); Full_no_panic_partial2 (Thm/Full8) moves the run-level hypothesis entirely to the CLEANED controller, to which pkg-scan's relex agreement applies as it stands; Thm/Full9 adds the ghost 'outstanding hint kind' controller hintCtl with its homomorphism lemma (run_hint: the ghost is free) and assembles Full_no_panic_partial3: the statement follows from two named hypotheses — the hint operations of the real controller from the four protocol states (Full_scan_opsH_statement) and the kind-guard freedom of the cleaned controller's runs (Full_clean_kindH_statement, = the relex agreement in both hint directions); STATUS of that reduction: the run-level hypothesis is PROVED (Thm/Full10, Full_clean_kindH: in runs of the cleaned, ghost-instrumented controller the kind guard never fires — the relex agreement in both hint directions, PendLaw for PendS / PendE, no hypothesis left); the operation-level hypothesis AS STATED is REFUTED (Thm/Full11, Full_scan_opsH_unsat: for every invariant Inv the statement is false, because CtlRelG demands the invariant after an operation that fails identically in both runs, and the dispatcher's own bounds check emit_chunk_before_lexeme is such a failure on lexemes the per-operation quantifier admits) — so Full_no_panic_partial3 is VACUOUS as it stands and is NOT claimed; the first repair (watermark guard added: Full_scan_opsW_statement) was refuted as well (Full_scan_opsW_unsat: the per-operation relation lets a hint be issued while another is outstanding, which the parser never does); the second repair guards the hint operations too (Thm/Full12: guardHints, Full_scan_opsX_statement with the closed invariant InvX) and is proved for idle x all four operations, all refused hints / lexemes, flush, handle_end and the initial state (Full_scan_opsX_partial), and — with the invariant strengthened to InvY = InvX + 'an outstanding end-tag hint with an active end-tag handler vector has NEXT_END_TAG in the flags' (InvX alone is not inductive) — for EVERY (operation, protocol state) pair (Thm/Full14, Full_scan_opsX). The lifting for the guarded-hints wrapper (run_relX), the freedom of all four guards in the cleaned runs (arguments, kind, watermark, hints: Full_clean_guardX') and the assembly Full_no_panic_partial4 are in Thm/Full13; the capstone Thm/Full15 combines them: Full_no_panic — for EVERY configuration (any selectors; element / text / comment / doctype / end-tag / document-end handlers with observing, mutating, removing or failing scripts), settings, input and chunking, in lexer AND scanner mode, no call of the whole rewriter model with the REAL controller returns a panic- or internal-class error. What IS proved for scanner mode: parser, dispatcher and stream add no panic site of their own with the real controller (Full_writes_agree_or_panic), the argument guard and the kind guard never fire (Full_args_guardFree, Full_clean_kindH), and the controller is panic-free along protocol-conforming event sequences (Full_no_panic_protocol); Full_no_panic is now a THEOREM (Thm/Full15) — see the end of this entry",
+     "REAL controller (Thm/Full17, Full23, Full25, Full26): Full_real_eq_clean (the whole model with the real controller = with the cleaned controller, for every configuration, settings, chunking; unconditional) and C15_linear_parse_real / C15_linear_parse_real_new / C15_work_linear_when_drained_real: the linear work bounds hold for the real controller with no hypothesis about the run; the work of the CONTROLLER itself per event is not part of the parse-step count: the run-time end-tag handler vector is covered by lane patho's deterministic handler-step oracle (finding F37, fixed)",
      "work bound: C15_linear_parse (one parse call makes <= 32(|slice|+1) state invocations) and C15_work_linear_when_drained (total work linear when each write leaves <= K retained bytes); without draining the bytes handed to the parser grow quadratically: C15_work_quadratic_witness = known finding F29",
      "known finding F29: a token spanning many writes is re-lexed from its start on every write (quadratic work), found by lane patho",
      "the controller itself never returns a panic/internal-class error (CtlClean)", MODEL_SCOPE],
